@@ -11,7 +11,7 @@ from ..ctx import Failure, Result, Viol, digest
 
 LEVEL = "fault_enumeration"
 WORKERS = {"quick": 8, "thorough": 16}
-BUDGET_S = {"quick": 55, "thorough": 800}
+BUDGET_S = {"quick": 70, "thorough": 800}
 RULE = (
     "Hypothesis draws a scenario (S1 stage+transfer into a LocalHashFileDB with state, hardlink on/off; "
     "S2 index build->md5->save of nested directories with state; S3 store->store transfer local cache -> "
@@ -50,6 +50,7 @@ def cases(draw):
         "tree2": draw(st.one_of(st.none(), st.none(), gen.trees(max_files=3, max_depth=1, content=gen.small_contents()))),
         "only_n": None,
         "only_m": None,
+        "bulk": 0,
     }
 
 
@@ -112,6 +113,11 @@ def make_template(case, tpl):
 
     ws = os.path.join(tpl, "ws")
     flat = gen.materialise(case["tree"], os.path.join(ws, "data"))
+    for j in range(case.get("bulk") or 0):
+        # many further small files: status queries, listings and add batches cross their page / batch sizes
+        data = b"bulk file %d\n" % j
+        gen.write_file(os.path.join(ws, "data", "bulk", f"f{j}"), data)
+        flat[f"bulk/f{j}"] = data
     if case["scenario"] == "S2":
         gen.write_file(os.path.join(ws, "top"), b"top-level file\n")
     if case["scenario"] == "S3":
@@ -277,6 +283,8 @@ def second_level(case, ctx, d, run, n, ref_ids, counters, fail_m):
         shutil.rmtree(base, ignore_errors=True)
         return viols  # the plain re-run path reports this
     ms = range(1, M + 1) if case.get("only_m") is None else [case["only_m"]]
+    if case.get("bulk") and case.get("only_m") is None:
+        ms = sorted({m for m in (1, 2, 3, 4, 5, 6, M // 2, M) if 1 <= m <= M})  # sampled, like the first level
     for m in ms:
         if ctx.over_budget() and not ctx.replaying:
             break
@@ -320,7 +328,7 @@ def run_case(case, ctx):  # noqa: C901
 
         # run 0: uninterrupted
         run0 = fresh("run0")
-        status, N, _ = crash.run_child(lambda: operation(case, run0), run0)
+        status, N, trace = crash.run_child(lambda: operation(case, run0), run0, trace=bool(case.get("bulk")))
         if status != "done":
             return Result([Viol("run0-error", f"uninterrupted run failed: {status[:600]}")])
         viols, ref_ids, _ = audit_final(case, run0, None, "uninterrupted")
@@ -348,6 +356,15 @@ def run_case(case, ctx):  # noqa: C901
         counters = {"crash_points": 0, "temp_leftovers": 0, "mismatching_unprotected_after_kill": 0,
                     "events_in_run0": N}
         ns = range(1, N + 1) if case.get("only_n") is None else [case["only_n"]]
+        if case.get("bulk") and case.get("only_n") is None:
+            # thousands of events: kill around every creation of a non-temporary name (link probes, directory
+            # objects, index files), at the first events, in the middle and at the end - not at every event
+            hot = [i + 1 for i, ch in enumerate(trace or "") if ch == "O"]
+            pick = set()
+            for h in hot[:3] + hot[-2:]:
+                pick.update((h, h + 1, h + 2))
+            pick.update((2, N // 2, N))
+            ns = sorted(n for n in pick if 1 <= n <= N)
         sdig = digest({k: v for k, v in case.items() if k not in ("only_n", "only_m")})
         fail_m = [None]
         for n in ns:
@@ -400,6 +417,8 @@ def run_case(case, ctx):  # noqa: C901
             cl.append("hardlink")
         if case.get("pre"):
             cl.append("target-prepopulated")
+        if case.get("bulk"):
+            cl.append("bulk(>1000 files, sampled crash points)")
         if case["scenario"] == "S3" and case.get("tree2"):
             cl.append("two-dirs-sharing-a-file")
         if case["scenario"] == "S3":
@@ -424,6 +443,9 @@ CANON = [
     {"scenario": "S3", "tree": {"a": "p:A"}, "hardlink": False, "index": True, "form": "closed", "pre": True,
      "tree2": None},
     {"scenario": "S4", "tree": _T, "hardlink": False, "index": False, "form": "closed", "pre": False, "tree2": None},
+    # > 1000 files in one directory (page / batch sizes of listings and status queries); crash points sampled
+    {"scenario": "S1", "tree": {"a": "p:A"}, "hardlink": False, "index": False, "form": "closed", "pre": False,
+     "tree2": None, "bulk": 1003},
 ]
 
 
